@@ -19,6 +19,15 @@
 (*          nearly one, in every numeric context (each arithmetic and        *)
 (*          comparison operator on either side against partners of several   *)
 (*          kinds, the unary operators, ++ and --)                           *)
+(*   made   COMPUTED operands: a number that is the RESULT of earlier        *)
+(*          arithmetic / coercion (the only way a number-tagged NaN or        *)
+(*          infinity exists: +"nan", inf - inf, 0 * inf, overflow of * + - /  *)
+(*          on doubles near 2^1023), every maker x every operator x either    *)
+(*          side x partners of every kind, and maker x maker; the result of a *)
+(*          cell depends on num() of the operands only, however they arose    *)
+(*   fnval  every runtime representation of a FUNCTION operand (a user        *)
+(*          function, the built-ins printf json num, every method of every    *)
+(*          receiver kind left un-called) in every operator x either side     *)
 EXTENDS JqValue
 
 S(str) == VStr(Chars(str))
@@ -150,6 +159,68 @@ SpellValue(s) ==
     [] Lower(s) = Chars("nan") -> NaN
     [] OTHER -> Zero
 
+\* ---- computed operands (family "made").  A maker is an expression tree over leaves of the universe whose
+\* value is a NUMBER produced by an operator (or, for the three anchors, the string spelling itself).  IEEE:
+\* an exact result beyond the largest double is an infinity (the makers' operands are n * 2^e with |n| < 2^12,
+\* so below 2^1024 every exact result here is a double).
+Overflows(x) == x.k = "num" /\ x.n # 0 /\ x.d = 1 /\ (x.e >= 1024 \/ (x.e >= 1012 /\ Abs(x.n) * Pow(2, x.e - 1012) >= 4096))
+RoundD(x) == IF Overflows(x) THEN Inf(x.n < 0) ELSE x
+RECURSIVE MadeVal(_)
+MadeVal(t) ==
+  CASE t.t = "leaf" -> t.v
+    [] t.t = "un" -> RoundD(UnOp(t.op, MadeVal(t.e)).v)
+    [] t.t = "bin" -> RoundD(Arith(t.op, MadeVal(t.l), MadeVal(t.r)).v)
+RECURSIVE NoOverflowIn(_)
+NoOverflowIn(t) ==
+  CASE t.t = "leaf" -> TRUE
+    [] t.t = "un" -> NoOverflowIn(t.e)
+    [] t.t = "bin" -> NoOverflowIn(t.l) /\ NoOverflowIn(t.r) /\ ~Overflows(Arith(t.op, MadeVal(t.l), MadeVal(t.r)).v)
+Big == Num(1, 1, 1023)
+Makers == <<
+  Leaf(S("nan"), 1), Leaf(S("inf"), 1), Leaf(S("-inf"), 1),                       \* anchors: the spellings themselves (strings)
+  UnNode("+", Leaf(S("nan"), 1)), UnNode("-", Leaf(S("NaN"), 1)),                 \* NaN by coercion
+  BinNode("*", Leaf(S("nan"), 1), Leaf(I(1), 2)),
+  BinNode("-", Leaf(S("inf"), 1), Leaf(S("inf"), 2)),                             \* NaN by arithmetic on infinities
+  BinNode("*", Leaf(Zero, 1), Leaf(S("inf"), 2)),
+  BinNode("/", Leaf(S("inf"), 1), Leaf(S("-inf"), 2)),
+  BinNode("-", BinNode("*", Leaf(Big, 1), Leaf(I(4), 2)), BinNode("*", Leaf(Big, 3), Leaf(I(4), 4))),   \* ... on infinities that are overflows
+  BinNode("*", Leaf(Zero, 1), BinNode("*", Leaf(Big, 2), Leaf(I(4), 3))),
+  UnNode("+", Leaf(S("inf"), 1)), UnNode("-", Leaf(S("inf"), 1)), UnNode("+", Leaf(S("-Infinity"), 1)),   \* infinities by coercion
+  BinNode("*", Leaf(S("-Infinity"), 1), Leaf(I(1), 2)),
+  BinNode("-", Leaf(S("inf"), 1), Leaf(I(1), 2)),
+  BinNode("*", Leaf(Big, 1), Leaf(I(4), 2)),                                      \* infinities by overflow
+  BinNode("*", Leaf(Neg(Big), 1), Leaf(I(2), 2)),
+  BinNode("+", Leaf(Big, 1), Leaf(Big, 2)),
+  BinNode("/", Leaf(Big, 1), Leaf(Num(1, 1, -20), 2)),
+  BinNode("-", Leaf(Neg(Big), 1), Leaf(Big, 2)),
+  BinNode("*", Leaf(S("5"), 1), Leaf(I(1), 2)), UnNode("+", Leaf(S("abc"), 1)), UnNode("-", Leaf(S(""), 1)),   \* finite numbers by coercion
+  BinNode("+", Leaf(VBool(TRUE), 1), Leaf(I(1), 2)), BinNode("-", Leaf(VNull, 1), Leaf(I(1), 2))>>
+NMakers == Len(Makers)
+MadeVals == [i \in 1..NMakers |-> MadeVal(Makers[i])]
+MadePartners == <<I(2), Zero, NegZero, I(-1), S("5"), S("abc"), S(""), S("nan"), S("inf"), VNull, VUnset, VBool(TRUE), VBool(FALSE),
+                  VArr(1), VObj(0), VRegex(Chars("ab")), VFn>>
+MadeIsNames == <<"number", "string", "bool", "array", "object", "regex", "function", "null", "unknown", "foo">>
+MadeCtxs == {<<"bin", o, side, p>> : o \in BinOps, side \in {1, 2}, p \in 1..Len(MadePartners)}
+            \cup {<<"un", o, 0, 0>> : o \in UnOps} \cup {<<"inc", o, pre, 0>> : o \in {"++", "--"}, pre \in {0, 1}}
+            \cup {<<"is", "is", 0, i>> : i \in 1..Len(MadeIsNames)}
+            \cup {<<"pair", o, 0, m2>> : o \in (ArithOps \cup CmpOps \cup LogicOps), m2 \in 1..NMakers}
+\* the comparisons the statement leaves open (NaN in row 7) are still ONE three-way result c per pair of numeric
+\* readings (3.4: every operator is derived from c): the harness groups the observed booleans by this class
+CmpClass(o, l, r, res) == IF o \in CmpOps /\ res = OkOpen THEN <<NumOf(l), NumOf(r)>> ELSE <<>>
+\* the same number, supplied as a string
+Spelled(v) == IF v.k \in {"num", "inf", "nan"} THEN VStr(NumText(v)) ELSE v
+IsNumber(v) == v.k \in {"num", "inf", "nan"}
+
+\* ---- function operands (family "fnval"): every runtime representation of a function.  The operators see a
+\* function (truthy, num 0, string form empty) whichever it is; only `is` tells them apart (3.6, not enumerated here).
+FnReps == <<"user", "printf", "json", "num", "arr.length", "arr.push", "arr.pop", "arr.popfirst", "arr.contains", "arr.sort",
+            "obj.length", "obj.pluck", "str.length", "str.split", "str.lower", "str.upper", "num.floor", "num.ceil", "num.round">>
+VFnRep(i) == [k |-> "fn", rep |-> FnReps[i]]
+FnPartners == <<I(2), Zero, I(-1), S(""), S("0"), S("abc"), VBool(TRUE), VBool(FALSE), VNull, VUnset, VArr(0), VObj(1), VRegex(Chars("ab")), VFn>>
+FnCtxs == {<<"bin", o, side, p>> : o \in BinOps, side \in {1, 2}, p \in 1..Len(FnPartners)}
+          \cup {<<"un", o, 0, 0>> : o \in UnOps}
+          \cup {<<"pair", o, 0, f2>> : o \in (ArithOps \cup CmpOps \cup LogicOps), f2 \in 1..Len(FnReps)}
+
 \* ---- enumeration: Init picks family, operator and left operand, Next the right one
 VARIABLES fam, op, li, ri, done
 vars == <<fam, op, li, ri, done>>
@@ -164,6 +235,8 @@ Init ==
      \/ fam = "site" /\ op \in BinOps /\ li \in 1..NU
      \/ fam = "usite" /\ op \in UnOps /\ li = 1
      \/ fam = "spell" /\ op = "spell" /\ li \in SpellIds
+     \/ fam = "made" /\ op = "made" /\ li \in 1..NMakers
+     \/ fam = "fnval" /\ op = "fnval" /\ li \in 1..Len(FnReps)
   /\ fam \in Fams
 Next ==
   /\ ~done /\ done' = TRUE /\ UNCHANGED <<fam, op, li>>
@@ -176,6 +249,8 @@ Next ==
        [] fam = "site" -> ri' \in (IF li = 1 THEN {1, 2, 3} ELSE {1, 2})                                \* the side
        [] fam = "usite" -> ri' = 0
        [] fam = "spell" -> ri' \in SpellCtxs
+       [] fam = "made" -> ri' \in MadeCtxs
+       [] fam = "fnval" -> ri' \in FnCtxs
 
 \* ---- deviations (open findings): the cells a known defect explains
 \* F6 zero-dividend: `0 / 5` and `0 % 5` are refused as divide by zero
@@ -226,7 +301,7 @@ Vec == done =>
                           IN [variant |-> SiteVariants[k], seq |-> seq, nout |-> Len(seq), err |-> FALSE]]])
     [] fam = "spell" ->
          LET sv == VStr(SpellStr(li)) IN
-         CASE ri[1] = "bin" ->
+         (CASE ri[1] = "bin" ->
                 LET p == SpellPartners[ri[4]]  l == IF ri[3] = 1 THEN sv ELSE p  r == IF ri[3] = 1 THEN p ELSE sv IN
                 Emit([fam |-> fam, ctx |-> "bin", op |-> ri[2], side |-> ri[3], l |-> l, r |-> r, res |-> BinOp(ri[2], l, r),
                       evalr |-> EvalsRight(ri[2], l), num |-> NumOf(sv), devs |-> <<>>])
@@ -234,7 +309,34 @@ Vec == done =>
                 Emit([fam |-> fam, ctx |-> "un", op |-> ri[2], l |-> sv, res |-> UnOp(ri[2], sv), num |-> NumOf(sv)])
            [] ri[1] = "inc" ->
                 LET x == IncDec(ri[2], ri[3] = 1, sv) IN
-                Emit([fam |-> fam, ctx |-> "inc", op |-> ri[2], l |-> sv, prefix |-> (ri[3] = 1), res |-> Ok(x.value), stored |-> x.stored, num |-> NumOf(sv)])
+                Emit([fam |-> fam, ctx |-> "inc", op |-> ri[2], l |-> sv, prefix |-> (ri[3] = 1), res |-> Ok(x.value), stored |-> x.stored, num |-> NumOf(sv)]))
+    [] fam = "made" ->
+         LET mv == MadeVals[li] IN
+         (CASE ri[1] = "bin" ->
+                LET p == MadePartners[ri[4]]  l == IF ri[3] = 1 THEN mv ELSE p  r == IF ri[3] = 1 THEN p ELSE mv  res == BinOp(ri[2], l, r) IN
+                Emit([fam |-> fam, ctx |-> "bin", op |-> ri[2], side |-> ri[3], li |-> li, mk |-> Makers[li], l |-> l, r |-> r, res |-> res,
+                      evalr |-> EvalsRight(ri[2], l), cls |-> CmpClass(ri[2], l, r, res)])
+           [] ri[1] = "pair" ->
+                LET r == MadeVals[ri[4]]  res == BinOp(ri[2], mv, r) IN
+                Emit([fam |-> fam, ctx |-> "pair", op |-> ri[2], side |-> 0, li |-> li, ri |-> ri[4], mk |-> Makers[li], mk2 |-> Makers[ri[4]], l |-> mv, r |-> r, res |-> res,
+                      evalr |-> EvalsRight(ri[2], mv), cls |-> CmpClass(ri[2], mv, r, res)])
+           [] ri[1] = "un" ->
+                Emit([fam |-> fam, ctx |-> "un", op |-> ri[2], li |-> li, mk |-> Makers[li], l |-> mv, res |-> UnOp(ri[2], mv)])
+           [] ri[1] = "inc" ->
+                LET x == IncDec(ri[2], ri[3] = 1, mv) IN
+                Emit([fam |-> fam, ctx |-> "inc", op |-> ri[2], li |-> li, mk |-> Makers[li], l |-> mv, prefix |-> (ri[3] = 1), res |-> Ok(x.value), stored |-> x.stored])
+           [] ri[1] = "is" ->
+                Emit([fam |-> fam, ctx |-> "is", op |-> "is", li |-> li, mk |-> Makers[li], l |-> mv, name |-> MadeIsNames[ri[4]], res |-> IsOp(mv, MadeIsNames[ri[4]])]))
+    [] fam = "fnval" ->
+         LET fv == VFnRep(li) IN
+         (CASE ri[1] = "bin" ->
+                LET p == FnPartners[ri[4]]  l == IF ri[3] = 1 THEN fv ELSE p  r == IF ri[3] = 1 THEN p ELSE fv IN
+                Emit([fam |-> fam, ctx |-> "bin", op |-> ri[2], side |-> ri[3], li |-> li, l |-> l, r |-> r, res |-> BinOp(ri[2], l, r), evalr |-> EvalsRight(ri[2], l)])
+           [] ri[1] = "pair" ->
+                Emit([fam |-> fam, ctx |-> "pair", op |-> ri[2], side |-> 0, li |-> li, ri |-> ri[4], l |-> fv, r |-> VFnRep(ri[4]),
+                      res |-> BinOp(ri[2], fv, VFnRep(ri[4])), evalr |-> EvalsRight(ri[2], fv)])
+           [] ri[1] = "un" ->
+                Emit([fam |-> fam, ctx |-> "un", op |-> ri[2], li |-> li, l |-> fv, res |-> UnOp(ri[2], fv)]))
 
 \* ======================================================================
 \* Laws (spec-level; checked by TLC in every enumerated state)
@@ -484,6 +586,66 @@ SpellLaws(sv, ctx) ==
        /\ SpellValue(sv.s).k # "num" => x.value = SpellValue(sv.s) /\ x.stored = SpellValue(sv.s)                  \* inf + 1 = inf, NaN + 1 = NaN
        /\ SpellValue(sv.s).k = "num" => x.stored = I(IF ctx[2] = "++" THEN 1 ELSE -1)
 
+\* ---- computed operands: what the makers make; a cell depends on the numeric reading of an operand only, not on
+\* whether it is a number or the string that spells it (rows 7 of 3.4, 3.3), except where a STRING operand matters
+\* (+ concatenates, two strings compare bytewise, ~ takes the text); errors exactly on a zero divisor / container
+\* comparison / non-pattern
+MadeErr(o, l, r) ==
+  \/ o = "/" /\ IsZero(NumOf(r))
+  \/ o = "%" /\ IsZero(Trunc(NumOf(r)))
+  \/ o \in CmpOps /\ "unset" \notin {l.k, r.k} /\ "null" \notin {l.k, r.k} /\ {l.k, r.k} \cap {"arr", "obj"} # {}
+  \/ o \in MatchOps /\ (r.k \notin {"str", "regex"} \/ r.s \in InvalidPatterns)
+MadeCellLaws(o, l, r, res) ==
+  /\ res.ok = ~MadeErr(o, l, r)
+  /\ o \in {"-", "*", "/", "%"} => res = BinOp(o, Spelled(l), Spelled(r))
+  /\ o \in CmpOps /\ IsNumber(l) /\ r.k # "str" => res = BinOp(o, Spelled(l), r)
+  /\ o \in CmpOps /\ IsNumber(r) /\ l.k # "str" => res = BinOp(o, l, Spelled(r))
+  /\ o = "+" /\ "str" \in {l.k, r.k} => res = Ok(VStr(StrOf(l) \o StrOf(r)))
+  /\ o = "+" /\ IsNumber(l) /\ r.k = "str" => res = BinOp(o, Spelled(l), r)
+  /\ o \in LogicOps => res = Ok(VBool(IF o = "&&" THEN Truthy(l) /\ Truthy(r) ELSE Truthy(l) \/ Truthy(r)))
+  /\ o \in MatchOps /\ IsNumber(l) => res = BinOp(o, Spelled(l), r)
+  /\ (o \in CmpOps /\ res = OkOpen) = (o \in CmpOps /\ "unset" \notin {l.k, r.k} /\ NanCmp(l, r))
+  /\ CmpClass(o, l, r, res) # <<>> => \E v \in {l, r} : NumOf(v) = NaN
+  \* an infinity is beyond every finite number and equal to itself
+  /\ o \in CmpOps /\ IsNumber(l) /\ l.k = "inf" /\ IsNumber(r) /\ r.k # "nan" =>
+       res = CompareBy(o, [ok |-> TRUE, c |-> IF r = l THEN 0 ELSE IF l.neg THEN -1 ELSE 1])
+MadeLaws(mi, ctx) ==
+  LET t == Makers[mi]  mv == MadeVals[mi] IN
+  /\ (t.t = "leaf") = (mv.k = "str") /\ mv.k \in {"str", "num", "inf", "nan"}
+  /\ NoOverflowIn(t) => EvalTree(t).ok /\ EvalTree(t).v = mv                 \* the evaluator of composed expressions agrees where nothing overflows
+  /\ ~NoOverflowIn(t) => mv.k \in {"inf", "nan"}
+  /\ IsNumber(mv) => NumOf(Spelled(mv)) = mv /\ Truthy(mv) = ~IsZero(mv)    \* the print form reads back as the same number
+  /\ mv.k = "str" => NumOf(mv).k \in {"inf", "nan"}
+  /\ ctx[1] = "bin" =>
+       LET p == MadePartners[ctx[4]]  l == IF ctx[3] = 1 THEN mv ELSE p  r == IF ctx[3] = 1 THEN p ELSE mv
+       IN MadeCellLaws(ctx[2], l, r, BinOp(ctx[2], l, r))
+  /\ ctx[1] = "pair" => MadeCellLaws(ctx[2], mv, MadeVals[ctx[4]], BinOp(ctx[2], mv, MadeVals[ctx[4]]))
+  /\ ctx[1] = "un" => UnOp(ctx[2], mv) = (IF ctx[2] = "!" THEN Ok(VBool(IF IsNumber(mv) THEN IsZero(mv) ELSE FALSE)) ELSE UnOp(ctx[2], Spelled(mv)))
+  /\ ctx[1] = "inc" => IncDec(ctx[2], ctx[3] = 1, mv) = IncDec(ctx[2], ctx[3] = 1, Spelled(mv))
+  /\ ctx[1] = "is" /\ IsNumber(mv) => IsOp(mv, MadeIsNames[ctx[4]]) = Ok(VBool(MadeIsNames[ctx[4]] = "number"))
+\* every class of values the makers are meant to reach is reached, by a coercion and by an overflow
+MakersCover ==
+  /\ \A x \in {NaN, PosInf, NegInf} : \E i, j \in 1..NMakers : MadeVals[i] = x /\ MadeVals[j] = x /\ NoOverflowIn(Makers[i]) /\ ~NoOverflowIn(Makers[j])
+  /\ \E i \in 1..NMakers : MadeVals[i] = NegZero
+  /\ \A i \in 1..Len(MadePartners) : MadePartners[i].k \in Kinds
+  /\ {MadePartners[i].k : i \in 1..Len(MadePartners)} = Kinds
+  /\ Overflows(Num(1, 1, 1024)) /\ ~Overflows(Num(4095, 1, 1012)) /\ Overflows(Num(4097, 1, 1012)) /\ ~Overflows(Big) /\ Overflows(Num(3, 1, 1023))
+
+\* ---- function operands: the result of every operator is that of the cell of a (user) function, whatever the
+\* representation; a function is truthy, so ! gives false, && and || short-circuit accordingly
+FnLaws(fi, ctx) ==
+  LET fv == VFnRep(fi) IN
+  /\ Truthy(fv) /\ NumOf(fv) = Zero /\ StrOf(fv) = <<>>
+  /\ UnOp("!", fv) = Ok(VBool(FALSE)) /\ EvalsRight("&&", fv) /\ ~EvalsRight("||", fv)
+  /\ ctx[1] = "bin" =>
+       LET p == FnPartners[ctx[4]] IN
+       /\ BinOp(ctx[2], IF ctx[3] = 1 THEN fv ELSE p, IF ctx[3] = 1 THEN p ELSE fv) = BinOp(ctx[2], IF ctx[3] = 1 THEN VFn ELSE p, IF ctx[3] = 1 THEN p ELSE VFn)
+       /\ ctx[2] = "&&" => BinOp("&&", fv, p) = Ok(VBool(Truthy(p))) /\ (ctx[3] = 2 => BinOp("&&", p, fv) = Ok(VBool(Truthy(p))))
+       /\ ctx[2] = "||" => BinOp("||", fv, p) = Ok(VBool(TRUE)) /\ BinOp("||", p, fv) = Ok(VBool(TRUE))
+  /\ ctx[1] = "pair" => BinOp(ctx[2], fv, VFnRep(ctx[4])) = BinOp(ctx[2], VFn, VFn)
+  /\ ctx[1] = "un" => UnOp(ctx[2], fv) = UnOp(ctx[2], VFn)
+  /\ {FnPartners[i].k : i \in 1..Len(FnPartners)} = Kinds
+
 Laws == done =>
   /\ fam = "nest" => NestLaws
   /\ fam = "site" => SiteLaws(op, ri, U[li])
@@ -492,6 +654,8 @@ Laws == done =>
   /\ fam = "match" /\ op = "~" => PairLaws(W[li], W[ri])
   /\ fam = "match" /\ op = "~" /\ li = 1 => ValueLaws(W[ri])            \* every value of W once
   /\ fam = "spell" => SpellLaws(VStr(SpellStr(li)), ri)
+  /\ fam = "made" => MadeLaws(li, ri)
+  /\ fam = "fnval" => FnLaws(li, ri)
 
 \* bytewise order on strings is a total order (checked once, on all triples)
 StrOrderLaw ==
@@ -518,4 +682,5 @@ ASSUME UniverseOK
 ASSUME StrOrderLaw
 ASSUME NumOrderLaw
 ASSUME Anchors
+ASSUME MakersCover
 =============================================================================
